@@ -32,6 +32,11 @@ CHECKS = {
     note='Trusted: z3 (NRA and QF_FP), symx executor, sqrt/cube-root atoms with their defining axioms. FP clause: e-independent arithmetic abstracted to fresh values bounded by 2^400.',
     technique='symbolic execution + z3 nonlinear real arithmetic; QF_FP (Float64) for the e=0 special value',
     design='2/C11'),
+ 'C07': dict(
+    text='Bounded SMT validity checking of the current .pyx source (transliterated to Python, extreme-value guards explored as paths): z3 decides M*J_published=1, passivity, |M|<=mu and an explicit high-frequency rate bound on the main path, the documented limit on every guard path, out[i]==impl(in[i]) for the prange helpers on extent-checked buffers (n<=3), the name lookup over a symbolic string, and legacy compliance == published == 1/M_compiled where no legacy mask is active.',
+    note='Trusted: z3, symx executor, the Cython->Python transliterator (cross-checked against the compiled module whenever that is in sync with the source), published compliances written in the harness. pow/tgamma/cos/sin are atoms with axioms. Replay runs the transliterated current source with floats (Cython is not available to rebuild).',
+    technique='Cython source transliteration + path-exploring symbolic execution + z3 nonlinear real arithmetic / strings',
+    design='2/C07'),
 }
 NOT_YET = {}
 ALL = ['C%02d' % i for i in range(1, 21)]
